@@ -4,7 +4,7 @@ From Coq Require Import Extraction ExtrOcamlBasic.
 From Coq Require Import List NArith String.
 From JV.lib Require Import Bytes Paths.
 From JV.gen Require Import IncludeName TagName DirectiveTables ScannerTable.
-From JV.model Require Import ScannerSem TagTitle Params Jerr PathParams OrderedMap.
+From JV.model Require Import ScannerSem TagTitle Params Jerr PathParams OrderedMap Description.
 
 Extraction Language OCaml.
 Extraction "Model.ml"
@@ -15,6 +15,7 @@ Extraction "Model.ml"
   TagTitle.pathTagTitle
   Params.unescape_parameter Params.quote_param Params.accepts_quoted Params.quoted_reject_pos Params.quoted_lexeme_len Params.append_parameter Params.append_parameter_idx
   Jerr.new_location Jerr.detect_nl
+  Description.description Description.annotation Description.trim_space
   OrderedMap.omap_script OrderedMap.oset_script
   PathParams.split_path PathParams.path_parameters PathParams.path_parameters_checked PathParams.register_paths
   ScannerSem.scan ScannerTable.lexkind_idx ScannerTable.state_idx ScannerTable.state_name
